@@ -122,7 +122,7 @@ Proof.
   - cbn [des_transfers runs]. rewrite des_step_ref. rewrite !nhigh_cons in *.
     unfold des_xfer, py_truth. cbn [d_valid d_v mkdes].
     assert (Hnext : forall k' c' tmp' ds' sv' va',
-               rx_ok k' c' ds' -> Z.of_nat (nhigh di_sample rest) < need k' c' -> (k' = 0 \/ ds' = 0 \/ True) ->
+               rx_ok k' c' ds' -> Z.of_nat (nhigh di_sample rest) < need k' c' ->
                ((sv' = 0 /\ va' = 0) \/ (sv' = 1 /\ va' = 0) \/ (sv' = 2 /\ va' = 1)) ->
                des_transfers (mkdes k' c' sv' tmp' va' v ds') rest = handed sv' v (nhigh di_ready rest)
                /\ Forall (calm v) (runs des_step (mkdes k' c' sv' tmp' va' v ds') rest)).
@@ -136,7 +136,7 @@ Proof.
         match goal with
         | |- context [mkdes ?k' ?c' ?sv' ?tmp' ?va' v ?ds'] =>
             destruct (Hnext k' c' tmp' ds' sv' va') as (T & Q);
-              [unfold rx_ok; lia | cbn [Z.eqb Pos.eqb]; lia | auto | auto | ]
+              [unfold rx_ok; lia | cbn [Z.eqb Pos.eqb]; lia | auto | ]
         end; rewrite T; (split; [| constructor; [split; reflexivity | exact Q]]);
         cbn [Z.eqb Pos.eqb Nat.add];
         repeat match goal with |- context [(?a <=? ?b)%nat] => destruct (Nat.leb_spec a b) end; try reflexivity; try lia.
@@ -147,7 +147,7 @@ Proof.
         match goal with
         | |- context [mkdes ?k' ?c' ?sv' ?tmp' ?va' v ?ds'] =>
             destruct (Hnext k' c' tmp' ds' sv' va') as (T & Q);
-              [unfold rx_ok; lia | cbn [Z.eqb Pos.eqb]; lia | auto | auto | ]
+              [unfold rx_ok; lia | cbn [Z.eqb Pos.eqb]; lia | auto | ]
         end; rewrite T; (split; [| constructor; [split; reflexivity | exact Q]]);
         cbn [Z.eqb Pos.eqb Nat.add];
         repeat match goal with |- context [(?a <=? ?b)%nat] => destruct (Nat.leb_spec a b) end; try reflexivity; try lia.
@@ -157,7 +157,7 @@ Proof.
         match goal with
         | |- context [mkdes ?k' ?c' ?sv' ?tmp' ?va' v ?ds'] =>
             destruct (Hnext k' c' tmp' ds' sv' va') as (T & Q);
-              [unfold rx_ok; lia | cbn [Z.eqb Pos.eqb]; lia | auto | auto | ]
+              [unfold rx_ok; lia | cbn [Z.eqb Pos.eqb]; lia | auto | ]
         end; rewrite T; (split; [| constructor; [split; reflexivity | exact Q]]);
         cbn [Z.eqb Pos.eqb Nat.add];
         repeat match goal with |- context [(?a <=? ?b)%nat] => destruct (Nat.leb_spec a b) end; try reflexivity; try lia.
